@@ -1,18 +1,424 @@
 /-
-  C02 — property theorems over the response pipeline model (`Model/Resp.lean`).
-  (being extended; helper lemmas live in `Lemmas/Resp*.lean`)
+  C02 — responses reach the client intact and correctly framed on keep-alive connections.
+
+  Property theorems over the response pipeline model `Resp.processResponse` (`Model/Resp.lean`,
+  validated against the real proxy), the writer/reader specification of `Model/RespSpec.lean`
+  (`serialize`, the independent RFC 7230 reader `parseResponse`, `parseSeq`, `connBytes`, the views
+  `inValues` / `outValues` / `outNames`) and the flush-policy model `Model/Flush.lean`.
+  Only property theorems, their `def …_full : Prop` companions, witnesses and non-vacuity examples
+  live here; helper lemmas are in `Lemmas/Resp*.lean`, concrete exchanges in `Lemmas/RespExamples.lean`.
+
+  Clauses that are FALSE of the unchanged code are kept visible as `def …_full : Prop` next to a
+  `…_partial` theorem (proved under the hypothesis that excludes the defect class, stated on the
+  input) and a kernel-checked `…_witness`:
+    F22  solicited gzip + Content-Length/close  → written with no framing on a kept-alive connection
+    F1   header-only response with declared trailers → head never terminated
+    F25  `Connection: <name>, close` from an HTTP/1.1 origin → nominated field forwarded
+  and, for the flush policy, a zero-length write between the two halves of a split pattern.
+
+  Hypotheses used throughout:
+    `rc.rules = []` / `RulesOK rc`   no response-header rules / rules as the flag parser yields
+                                      them, none of them a `%name` (rename) rule;
+    `HeadWF r`                        what is written is syntactically a head: HTTP/1.0–1.9,
+                                      status < 1000, no LF in reason phrase or values, names non-empty
+                                      tokens (Go's writers guarantee it for their output);
+    token names                       the views are stated for names that are RFC 7230 tokens.
 -/
-import FwdVerif.Model.Resp
+import FwdVerif.Lemmas.RespExamples
+import FwdVerif.Lemmas.RespParse
+import FwdVerif.Lemmas.RespFlush
+import FwdVerif.Lemmas.RespHeadWF
 
 namespace FwdVerif
 namespace C02
 
-open Resp
+open Resp Ascii
+
+/-! ## A. status line -/
 
 /-- responses to HEAD and 1xx/204/304 responses are header-only -/
 theorem c02_header_only_iff (m : Bytes) (st : Nat) :
     headerOnly m st = true ↔ m = Req.bs "HEAD" ∨ st / 100 = 1 ∨ st = 204 ∨ st = 304 := by
   simp [headerOnly, bodyAllowed, or_assoc]
+
+/-- status code, reason phrase and protocol minor version are the origin's -/
+theorem c02_status {rc : ReqCtx} {o : OriginResp} {r : ClientResp}
+    (h : processResponse rc o = .ok r) :
+    r.status = o.status ∧ r.reason = o.reason ∧ r.minor = o.minor :=
+  status_preserved h
+
+example : processResponse Ex.rcGet Ex.oLen = .ok Ex.rLen ∧ Ex.rLen.status = 404 ∧
+    Ex.rLen.reason = [78, 111, 116, 32, 70, 111, 117, 110, 100] :=
+  ⟨Ex.evalLen, rfl, rfl⟩
+
+/-! ## B. end-to-end fields -/
+
+/-- Every end-to-end field reaches the client with the same values in the same order: for a token
+    name that is not hop-by-hop by definition, not one of the names the proxy manages for its own
+    connection (`connection`, `upgrade`, `content-length`, `transfer-encoding`, `trailer`), not
+    nominated by a `Connection` line of the origin, and not `content-encoding` when the body was
+    gunzipped.  (No response-header rules configured.) -/
+theorem c02_end_to_end_preserved {rc : ReqCtx} {o : OriginResp} {r : ClientResp}
+    (hrules : rc.rules = []) (h : processResponse rc o = .ok r) (n : Bytes)
+    (htok : n.all isTokenByte = true)
+    (hstatic : lower n ∉ staticHopByHop) (hmanaged : lower n ∉ managedNames)
+    (hnom : lower n ∉ nominated o)
+    (hce : r.body = .gunzip → lower n ≠ Name.contentEncoding) :
+    outValues r n = inValues o n :=
+  end_to_end_preserved hrules h htok hstatic hmanaged hnom hce
+
+/-- `Set-Cookie` sent twice (once spelt `set-cookie`), next to nominated and hop-by-hop fields -/
+example : processResponse Ex.rcGet Ex.oChunked = .ok Ex.rChunked ∧
+    outValues Ex.rChunked [83, 101, 116, 45, 67, 111, 111, 107, 105, 101] =
+      [[97, 61, 49], [98, 61, 50]] ∧
+    lower [83, 101, 116, 45, 67, 111, 111, 107, 105, 101] ∉ nominated Ex.oChunked ∧
+    nominated Ex.oChunked = [[120, 45, 104, 111, 112], [107, 101, 101, 112, 45, 97, 108, 105, 118, 101]] :=
+  ⟨Ex.evalChunked, by decide, by decide, by decide⟩
+
+/-- The same for a well-formed origin response (`OriginWF o`: every field name is a token), for
+    EVERY name `n`: names that are not tokens occur neither in the origin's response nor on the wire. -/
+theorem c02_end_to_end_preserved_wf {rc : ReqCtx} {o : OriginResp} {r : ClientResp}
+    (hwf : OriginWF o) (hrules : rc.rules = []) (h : processResponse rc o = .ok r) (n : Bytes)
+    (hstatic : lower n ∉ staticHopByHop) (hmanaged : lower n ∉ managedNames)
+    (hnom : lower n ∉ nominated o)
+    (hce : r.body = .gunzip → lower n ≠ Name.contentEncoding) :
+    outValues r n = inValues o n :=
+  end_to_end_preserved_wf hwf hrules h hstatic hmanaged hnom hce
+
+/-- for a well-formed origin every field name written to the client is a token -/
+theorem c02_names_are_tokens {rc : ReqCtx} {o : OriginResp} {r : ClientResp} (hwf : OriginWF o)
+    (hrules : rc.rules = []) (h : processResponse rc o = .ok r) :
+    ∀ m ∈ outNames r, m.all isTokenByte = true :=
+  names_token hwf hrules h
+
+example : OriginWF Ex.oChunked := by decide
+
+/-! ## C. hop-by-hop fields -/
+
+/-- the hop-by-hop fields of RFC 7230 §6.1 (`Keep-Alive`, `Proxy-Authenticate`,
+    `Proxy-Authorization`, `Proxy-Connection`, `TE`) never reach the client -/
+theorem c02_hop_by_hop_removed {rc : ReqCtx} {o : OriginResp} {r : ClientResp}
+    (hr : RulesOK rc) (h : processResponse rc o = .ok r) (n : Bytes) (hn : n ∈ staticHopByHop) :
+    n ∉ outNames r :=
+  static_removed hr h hn
+
+example : processResponse Ex.rcGet Ex.oChunked = .ok Ex.rChunked ∧ RulesOK Ex.rcGet ∧
+    inValues Ex.oChunked Name.keepAlive ≠ [] ∧ Name.keepAlive ∉ outNames Ex.rChunked :=
+  ⟨Ex.evalChunked, rulesOK_nil rfl, by decide, by decide⟩
+
+/-- FULL statement: every field a `Connection` line of the origin nominates is removed.
+    FALSE for the unchanged code (F25), see `c02_nominated_removed_witness`. -/
+def c02_nominated_removed_full : Prop :=
+  ∀ (rc : ReqCtx) (o : OriginResp) (r : ClientResp), rc.rules = [] → processResponse rc o = .ok r →
+    ∀ n ∈ nominated o, n.all isTokenByte = true → n ∉ managedNames → n ∉ outNames r
+
+/-- nominated fields are removed provided the `Connection` field survives the transport's read:
+    the origin is HTTP/1.0 or its `Connection` lines do not carry `close` -/
+theorem c02_nominated_removed_partial {rc : ReqCtx} {o : OriginResp} {r : ClientResp}
+    (hrules : rc.rules = []) (h : processResponse rc o = .ok r)
+    (hsurv : o.minor = 0 ∨ originSaysClose o = false)
+    (n : Bytes) (hn : n ∈ nominated o) (htok : n.all isTokenByte = true) (hm : n ∉ managedNames) :
+    n ∉ outNames r :=
+  nominated_removed hrules h hsurv hn htok hm
+
+example : processResponse Ex.rcGet Ex.oChunked = .ok Ex.rChunked ∧ originSaysClose Ex.oChunked = false ∧
+    [120, 45, 104, 111, 112] ∈ nominated Ex.oChunked ∧ inValues Ex.oChunked [120, 45, 104, 111, 112] = [[49]] ∧
+    [120, 45, 104, 111, 112] ∉ outNames Ex.rChunked :=
+  ⟨Ex.evalChunked, by decide, by decide, by decide, by decide⟩
+
+/-- F25: `Connection: X-Hop, close` from an HTTP/1.1 origin — `X-Hop: 1` is forwarded -/
+theorem c02_nominated_removed_witness : ¬ c02_nominated_removed_full := by
+  intro h
+  exact absurd (h Ex.rcGet Ex.oF25 Ex.rF25 rfl Ex.evalF25 [120, 45, 104, 111, 112] (by decide) (by decide)
+    (by decide)) (by decide)
+
+/-! ## D. framing -/
+
+/-- HEAD / 1xx / 204 / 304: no body bytes are written, whatever the origin sent -/
+theorem c02_header_only_no_body {rc : ReqCtx} {o : OriginResp} {r : ClientResp}
+    (h : processResponse rc o = .ok r) (hb : bodiless rc.method o.status = true) :
+    (r.framing = .none ∨ r.framing = .unterminatedHead) ∧ r.body = .dropped :=
+  header_only_no_body h hb
+
+example : processResponse Ex.rcHead Ex.oLen = .ok Ex.rHeadLen ∧ bodiless Ex.rcHead.method Ex.oLen.status = true ∧
+    Ex.rHeadLen.framing = .none :=
+  ⟨Ex.evalHeadLen, by decide, rfl⟩
+
+/-- a response delimited by the end of the connection does close the connection -/
+theorem c02_framing_eof_closes {rc : ReqCtx} {o : OriginResp} {r : ClientResp}
+    (h : processResponse rc o = .ok r) (hf : r.framing = .eof) : r.keepAlive = false :=
+  eof_closes h hf
+
+example : processResponse Ex.rcGet Ex.oEof = .ok Ex.rEof ∧ Ex.rEof.framing = .eof ∧ Ex.rEof.keepAlive = false :=
+  ⟨Ex.evalEof, rfl, rfl⟩
+
+/-- FULL statement: a response after which the connection is kept open is delimited on the wire.
+    FALSE for the unchanged code (F22, F1), see the two witnesses below. -/
+def c02_keepalive_implies_delimited : Prop :=
+  ∀ (rc : ReqCtx) (o : OriginResp) (r : ClientResp), processResponse rc o = .ok r → r.keepAlive = true →
+    r.framing = .none ∨ (∃ n, r.framing = .cl n) ∨ (∃ ts, r.framing = .chunked ts)
+
+/-- keep-alive ⇒ delimited, outside the two defect classes (both stated on the input):
+    `InputF22` = gzip solicited by the proxy itself ∧ origin answers `Content-Encoding: gzip` ∧ the
+    response has a body ∧ is not chunked; `InputF1` = bodiless (HEAD/1xx/204/304) ∧ origin chunked ∧
+    declares trailers. -/
+theorem c02_keepalive_implies_delimited_partial {rc : ReqCtx} {o : OriginResp} {r : ClientResp}
+    (h : processResponse rc o = .ok r) (h22 : ¬ InputF22 rc o) (h1 : ¬ InputF1 rc o)
+    (hk : r.keepAlive = true) :
+    r.framing = .none ∨ (∃ n, r.framing = .cl n) ∨ (∃ ts, r.framing = .chunked ts) :=
+  keepalive_delimited h h22 h1 hk
+
+example : processResponse Ex.rcGetGz Ex.oGzChunked = .ok Ex.rGzChunked ∧ ¬ InputF22 Ex.rcGetGz Ex.oGzChunked ∧
+    ¬ InputF1 Ex.rcGetGz Ex.oGzChunked ∧ Ex.rGzChunked.keepAlive = true :=
+  ⟨Ex.evalGzChunked, by decide, by decide, rfl⟩
+
+/-- the two defective framings arise only from the two defect classes: a response written with no
+    framing at all on an open connection comes from `InputF22` … -/
+theorem c02_unframed_only_F22 {rc : ReqCtx} {o : OriginResp} {r : ClientResp}
+    (h : processResponse rc o = .ok r) (hf : r.framing = .unframed) : InputF22 rc o :=
+  unframed_is_F22 h hf
+
+/-- … and a head that is never terminated comes from `InputF1` -/
+theorem c02_unterminated_only_F1 {rc : ReqCtx} {o : OriginResp} {r : ClientResp}
+    (h : processResponse rc o = .ok r) (hf : r.framing = .unterminatedHead) : InputF1 rc o :=
+  unterminated_is_F1 h hf
+
+/-- F22: GET, gzip solicited by the transport; `200 OK`, `Content-Encoding: gzip`,
+    `Content-Length: 20` → no length, no chunking, connection kept open -/
+theorem c02_unframed_witness :
+    ∃ rc o r, processResponse rc o = .ok r ∧ InputF22 rc o ∧ r.keepAlive = true ∧
+      r.framing = .unframed ∧ r.fields = [] :=
+  ⟨Ex.rcGetGz, Ex.oF22, Ex.rF22, Ex.evalF22, by decide, rfl, rfl, rfl⟩
+
+/-- F1: GET; `304 Not Modified`, `Transfer-Encoding: chunked`, `Trailer: X-T` → the head is never
+    terminated, connection kept open -/
+theorem c02_unterminated_head_witness :
+    ∃ rc o r, processResponse rc o = .ok r ∧ InputF1 rc o ∧ r.keepAlive = true ∧
+      r.framing = .unterminatedHead :=
+  ⟨Ex.rcGet, Ex.oF1, Ex.rF1, Ex.evalF1, by decide, rfl, rfl⟩
+
+theorem c02_keepalive_implies_delimited_witness : ¬ c02_keepalive_implies_delimited := by
+  intro h
+  rcases h Ex.rcGetGz Ex.oF22 Ex.rF22 Ex.evalF22 rfl with h' | ⟨n, h'⟩ | ⟨ts, h'⟩ <;>
+    exact absurd h' (by simp [Ex.rF22])
+
+/-- the field lines written declare the framing used: an RFC 7230 §3.3.3 reader that knows the
+    request method decides exactly the framing the writer used -/
+theorem c02_framing_declared {rc : ReqCtx} {o : OriginResp} {r : ClientResp} (hr : RulesOK rc)
+    (hm : rc.method ≠ Name.CONNECT) (h : processResponse rc o = .ok r)
+    (h1 : r.framing ≠ .unframed) (h2 : r.framing ≠ .unterminatedHead) :
+    FramingDeclared rc.method r :=
+  framing_declared hr hm h h1 h2
+
+/-- **Self-delimiting**: a conforming reader consumes exactly this response, whatever follows it on
+    the connection (`rest` is arbitrary): header-only, `Content-Length` (with a body of that length)
+    and chunked (any chunking of the body into non-empty chunks, any well-formed trailers). -/
+theorem c02_framing_self_delimiting {rc : ReqCtx} {o : OriginResp} {r : ClientResp} (hr : RulesOK rc)
+    (hm : rc.method ≠ Name.CONNECT) (h : processResponse rc o = .ok r) (hwf : HeadWF r)
+    (chunks : List Bytes) (trailers : List (Bytes × Bytes)) (htr : ∀ f ∈ trailers, LineWF f)
+    (hfit : BodyFits r chunks)
+    (hfr : r.framing = .none ∨ (∃ n, r.framing = .cl n) ∨ (∃ ts, r.framing = .chunked ts))
+    (rest : Bytes) :
+    parseResponse rc.method (serialize r chunks trailers ++ rest) = some (expected r chunks trailers, rest) := by
+  have h1 : r.framing ≠ .unframed := by
+    rcases hfr with h' | ⟨n, h'⟩ | ⟨ts, h'⟩ <;> rw [h'] <;> simp
+  have h2 : r.framing ≠ .unterminatedHead := by
+    rcases hfr with h' | ⟨n, h'⟩ | ⟨ts, h'⟩ <;> rw [h'] <;> simp
+  have h3 : r.framing ≠ .eof := by
+    rcases hfr with h' | ⟨n, h'⟩ | ⟨ts, h'⟩ <;> rw [h'] <;> simp
+  exact parseResponse_serialize rc.method r chunks trailers rest hwf htr (framing_declared hr hm h h1 h2) hfit h3
+
+/-- a syntactically well-formed origin head (`OriginHeadWF o`: HTTP/1.0–1.9, status < 1000, no LF in
+    reason phrase or values, non-empty token names) is written as a well-formed head -/
+theorem c02_head_well_formed {rc : ReqCtx} {o : OriginResp} {r : ClientResp} (hwf : OriginHeadWF o)
+    (hrules : rc.rules = []) (h : processResponse rc o = .ok r) : HeadWF r :=
+  headWF_of_origin hwf hrules h
+
+/-- **Self-delimiting, all hypotheses on the input**: for a well-formed origin response outside the
+    defect classes F22 / F1, on a connection that is kept open, a conforming reader consumes exactly
+    this response, whatever follows it. -/
+theorem c02_framing_self_delimiting_origin {rc : ReqCtx} {o : OriginResp} {r : ClientResp}
+    (hwf : OriginHeadWF o) (hrules : rc.rules = []) (hm : rc.method ≠ Name.CONNECT)
+    (h : processResponse rc o = .ok r) (h22 : ¬ InputF22 rc o) (h1 : ¬ InputF1 rc o)
+    (hk : r.keepAlive = true)
+    (chunks : List Bytes) (trailers : List (Bytes × Bytes)) (htr : ∀ f ∈ trailers, LineWF f)
+    (hfit : BodyFits r chunks) (rest : Bytes) :
+    parseResponse rc.method (serialize r chunks trailers ++ rest) = some (expected r chunks trailers, rest) :=
+  c02_framing_self_delimiting (rulesOK_nil hrules) hm h (headWF_of_origin hwf hrules h) chunks trailers htr
+    hfit (keepalive_delimited h h22 h1 hk) rest
+
+example : OriginHeadWF Ex.oChunked ∧ ¬ InputF22 Ex.rcGet Ex.oChunked ∧ ¬ InputF1 Ex.rcGet Ex.oChunked ∧
+    Ex.rChunked.keepAlive = true :=
+  ⟨⟨by decide, by decide, by decide, by decide⟩, by decide, by decide, rfl⟩
+
+/-- a chunked response with a declared trailer, written as two chunks -/
+example : processResponse Ex.rcGet Ex.oChunked = .ok Ex.rChunked ∧ RulesOK Ex.rcGet ∧
+    Ex.rcGet.method ≠ Name.CONNECT ∧ HeadWF Ex.rChunked ∧
+    (∀ f ∈ [(([88, 45, 83, 117, 109], [52, 50]) : Bytes × Bytes)], LineWF f) ∧
+    BodyFits Ex.rChunked [[104, 101, 108, 108, 111, 32], [119, 111, 114, 108, 100]] ∧
+    (expected Ex.rChunked [[104, 101, 108, 108, 111, 32], [119, 111, 114, 108, 100]]
+        [([88, 45, 83, 117, 109], [52, 50])]).body = [104, 101, 108, 108, 111, 32, 119, 111, 114, 108, 100] :=
+  ⟨Ex.evalChunked, rulesOK_nil rfl, by decide, by decide, by decide, by decide, by decide⟩
+
+example : processResponse Ex.rcGet Ex.oLen = .ok Ex.rLen ∧ HeadWF Ex.rLen ∧
+    BodyFits Ex.rLen [[49, 50, 51], [52, 53]] :=
+  ⟨Ex.evalLen, by decide, by decide⟩
+
+/-- a close-delimited response is read up to the end of the stream (and nothing follows: see
+    `c02_framing_eof_closes`) -/
+theorem c02_framing_eof_reads_to_end {rc : ReqCtx} {o : OriginResp} {r : ClientResp} (hr : RulesOK rc)
+    (hm : rc.method ≠ Name.CONNECT) (h : processResponse rc o = .ok r) (hwf : HeadWF r)
+    (chunks : List Bytes) (trailers : List (Bytes × Bytes)) (hf : r.framing = .eof) :
+    parseResponse rc.method (serialize r chunks trailers) = some (expected r chunks trailers, []) :=
+  parseResponse_serialize_eof rc.method r chunks trailers hwf
+    (framing_declared hr hm h (by rw [hf]; simp) (by rw [hf]; simp)) hf
+
+example : processResponse Ex.rcGet Ex.oEof = .ok Ex.rEof ∧ HeadWF Ex.rEof ∧ Ex.rEof.framing = .eof :=
+  ⟨Ex.evalEof, by decide, rfl⟩
+
+/-- one exchange on a client connection: request context, origin response, and what the writers
+    emit for it (the `ClientResp` of the model with a concrete body chunking and trailers) -/
+structure Served where
+  rc : ReqCtx
+  o : OriginResp
+  x : Exchange
+
+/-- the exchange is what the model says, is written as a well-formed head, and is outside the
+    defect classes F22 / F1 -/
+structure Served.Good (s : Served) : Prop where
+  model : processResponse s.rc s.o = .ok s.x.resp
+  method : s.x.method = s.rc.method
+  rules : RulesOK s.rc
+  notConnect : s.rc.method ≠ Name.CONNECT
+  headWF : HeadWF s.x.resp
+  trailersWF : ∀ f ∈ s.x.trailers, LineWF f
+  bodyFits : BodyFits s.x.resp s.x.chunks
+  notF22 : ¬ InputF22 s.rc s.o
+  notF1 : ¬ InputF1 s.rc s.o
+
+/-- **Sequence theorem**: for any list of exchanges on one client connection, the bytes the
+    connection carries (`connBytes`: the serialisations, up to and including the first response
+    that closes the connection) are read back by a conforming client as exactly those responses,
+    k-th response to k-th request, with nothing left over: no byte of one message leaks into the
+    next. -/
+theorem c02_sequence (ss : List Served) (h : ∀ s ∈ ss, s.Good) :
+    parseSeq ((served (ss.map (·.x))).map (·.method)) (connBytes (ss.map (·.x))) =
+      some ((served (ss.map (·.x))).map Exchange.expected, []) := by
+  apply parseSeq_connBytes
+  intro x hx
+  obtain ⟨s, hs, rfl⟩ := List.mem_map.mp hx
+  have g := h s hs
+  have h1 : s.x.resp.framing ≠ .unframed := fun hf => g.notF22 (unframed_is_F22 g.model hf)
+  have h2 : s.x.resp.framing ≠ .unterminatedHead := fun hf => g.notF1 (unterminated_is_F1 g.model hf)
+  refine ⟨g.headWF, g.trailersWF, ?_, g.bodyFits, fun hf => eof_closes g.model hf⟩
+  rw [g.method]
+  exact framing_declared g.rules g.notConnect g.model h1 h2
+
+/-- chunked with trailer, then Content-Length, then 304, then a close-delimited HTTP/1.0 response -/
+example :
+    let ss : List Served :=
+      [⟨Ex.rcGet, Ex.oChunked, ⟨Ex.rcGet.method, Ex.rChunked, [[104, 105], [33]], [([88, 45, 83, 117, 109], [52, 50])]⟩⟩,
+       ⟨Ex.rcGet, Ex.oLen, ⟨Ex.rcGet.method, Ex.rLen, [[49, 50, 51, 52, 53]], []⟩⟩,
+       ⟨Ex.rcGet, Ex.oNotMod, ⟨Ex.rcGet.method, Ex.rNotMod, [], []⟩⟩,
+       ⟨Ex.rcGet, Ex.oEof, ⟨Ex.rcGet.method, Ex.rEof, [[98, 121, 101]], []⟩⟩]
+    (∀ s ∈ ss, s.Good) ∧ (served (ss.map (·.x))).length = 4 := by
+  intro ss
+  refine ⟨?_, by decide⟩
+  intro s hs
+  simp only [ss, List.mem_cons, List.not_mem_nil, or_false] at hs
+  rcases hs with rfl | rfl | rfl | rfl
+  · exact ⟨Ex.evalChunked, rfl, rulesOK_nil rfl, by decide, by decide, by decide, by decide, by decide, by decide⟩
+  · exact ⟨Ex.evalLen, rfl, rulesOK_nil rfl, by decide, by decide, by decide, by decide, by decide, by decide⟩
+  · exact ⟨Ex.evalNotMod, rfl, rulesOK_nil rfl, by decide, by decide, by decide, by decide, by decide, by decide⟩
+  · exact ⟨Ex.evalEof, rfl, rulesOK_nil rfl, by decide, by decide, by decide, by decide, by decide, by decide⟩
+
+/-! ## E. incremental delivery (`patternFlushWriter`) -/
+
+open Flush in
+/-- a write that contains the pattern (`\n\n` for event streams, `\r\n` for chunked bodies) is
+    followed by a flush -/
+theorem c02_flush_if_contains (pat : UInt8 × UInt8) (ws : List Bytes) (i : Nat) (p : Bytes)
+    (hi : ws[i]? = some p) (hc : containsPair pat p = true) : (flushes pat ws)[i]? = some true :=
+  flush_if_contains pat ws i p hi hc
+
+open Flush in
+/-- the pattern split across two consecutive non-empty writes is caught -/
+theorem c02_flush_boundary (pat : UInt8 × UInt8) (ws : List Bytes) (i : Nat) (q p : Bytes)
+    (hq : ws[i]? = some q) (hp : ws[i + 1]? = some p) (hl : q.getLast? = some pat.1)
+    (hh : p.head? = some pat.2) : (flushes pat ws)[i + 1]? = some true :=
+  flush_boundary pat ws i q p hq hp hl hh
+
+open Flush in
+/-- "data: a\n" | "\ndata: b" | "x": the pair is split across writes 0 and 1 -/
+example :
+    let ws : List Bytes := [[100, 97, 116, 97, 58, 32, 97, 10], [10, 100, 97, 116, 97, 58, 32, 98], [120]]
+    ws[0]? = some [100, 97, 116, 97, 58, 32, 97, 10] ∧ ws[1]? = some [10, 100, 97, 116, 97, 58, 32, 98] ∧
+      ([100, 97, 116, 97, 58, 32, 97, 10] : Bytes).getLast? = some 10 ∧
+      ([10, 100, 97, 116, 97, 58, 32, 98] : Bytes).head? = some 10 ∧
+      flushes (10, 10) ws = [false, true, false] := by
+  decide
+
+open Flush in
+/-- FULL statement: after every non-empty write that leaves the output ending with the pattern there
+    is a flush.  FALSE for the code: a zero-length write between the two halves resets `last`. -/
+def c02_flush_after_pattern_full : Prop := flush_after_pattern_full
+
+open Flush in
+/-- … it holds when, in the split case, the preceding write is non-empty -/
+theorem c02_flush_after_pattern_partial (pat : UInt8 × UInt8) (ws : List Bytes) (i : Nat) (p : Bytes)
+    (hi : ws[i]? = some p) (hne : p ≠ []) (hend : endsWithPair pat (written ws i))
+    (hside : 2 ≤ p.length ∨ ∃ q, 0 < i ∧ ws[i - 1]? = some q ∧ q ≠ []) :
+    (flushes pat ws)[i]? = some true :=
+  flush_after_pattern_partial pat ws i p hi hne hend hside
+
+open Flush in
+/-- a chunk "5\r\nhello\r\n" written as "5\r\nhello\r" | "\n": hypotheses of the partial theorem at i = 1 -/
+example :
+    let ws : List Bytes := [[53, 13, 10, 104, 101, 108, 108, 111, 13], [10]]
+    ws[1]? = some [10] ∧ endsWithPair (13, 10) (written ws 1) ∧
+      (∃ q, 0 < 1 ∧ ws[1 - 1]? = some q ∧ q ≠ []) ∧ flushes (13, 10) ws = [true, true] :=
+  ⟨rfl, by decide, ⟨_, by decide, rfl, by decide⟩, by decide⟩
+
+open Flush in
+/-- "\n" | "" | "\n": the output ends with "\n\n" but nothing is flushed -/
+theorem c02_flush_after_pattern_witness : ¬ c02_flush_after_pattern_full :=
+  flush_after_pattern_witness
+
+open Flush in
+/-- "data: a\n" | "\n" | "data: b\n\ndata: c": flushes after the 2nd and 3rd write -/
+example : flushes (10, 10) [[100, 97, 116, 97, 58, 32, 97, 10], [10],
+    [100, 97, 116, 97, 58, 32, 98, 10, 10, 100, 97, 116, 97, 58, 32, 99]] = [false, true, true] := by
+  decide
+
+/-! ## F. gzip -/
+
+/-- the body is gunzipped only when the proxy itself solicited gzip and the origin's response is
+    gzip-coded (and has a body) -/
+theorem c02_gzip_only_when_solicited {rc : ReqCtx} {o : OriginResp} {r : ClientResp}
+    (h : processResponse rc o = .ok r) (hb : r.body = .gunzip) :
+    rc.solicitedGzip = true ∧ originGzip o = true ∧ bodiless rc.method o.status = false :=
+  gunzip_facts h hb
+
+/-- … and then neither `Content-Encoding` nor `Content-Length` is written -/
+theorem c02_gunzip_drops_coding_fields {rc : ReqCtx} {o : OriginResp} {r : ClientResp}
+    (hrules : rc.rules = []) (h : processResponse rc o = .ok r) (hb : r.body = .gunzip) :
+    Name.contentEncoding ∉ outNames r ∧ Name.contentLength ∉ outNames r :=
+  gunzip_drops hrules h hb
+
+example : processResponse Ex.rcGetGz Ex.oGzChunked = .ok Ex.rGzChunked ∧ Ex.rGzChunked.body = .gunzip ∧
+    inValues Ex.oGzChunked Name.contentEncoding = [Name.gzip] :=
+  ⟨Ex.evalGzChunked, rfl, by decide⟩
+
+/-- without solicitation a gzip-coded response passes through untouched -/
+example : ∃ r, processResponse Ex.rcGet Ex.oGzChunked = .ok r ∧ r.body = .same ∧
+    outValues r Name.contentEncoding = [Name.gzip] := by
+  refine ⟨⟨1, 200, [79, 75],
+    [(Name.transferEncoding, [Name.chunked]), (Name.contentEncoding, [Name.gzip]),
+     ([118, 97, 114, 121], [[65, 99, 99, 101, 112, 116, 45, 69, 110, 99, 111, 100, 105, 110, 103]])],
+    .chunked [], .same, true⟩, ?_, rfl, by decide⟩
+  show processResponse Ex.rcGet Ex.oGzChunked = _
+  unfold Ex.rcGet Ex.oGzChunked
+  resp_eval
 
 end C02
 end FwdVerif
